@@ -625,9 +625,9 @@ func cdrScenarios(prop, tier string) []cdrScenario {
 	}
 	if prop == "C02" {
 		return []cdrScenario{
-			{name: "2ue-2sess-small", depth: d(4, 6), twoUE: true, maxSess: 2, small: true},
-			{name: "1ue-1sess-split", depth: d(5, 7), maxSess: 1, bulks: []int{900}, prefix: []Op{mkCreate(0, "smf1")}},
-			{name: "1ue-2sess-split", depth: d(4, 6), maxSess: 2, bulks: []int{1300}},
+			{name: "2ue-2sess-small", depth: d(4, 7), twoUE: true, maxSess: 2, small: true},
+			{name: "1ue-1sess-split", depth: d(5, 8), maxSess: 1, bulks: []int{900}, prefix: []Op{mkCreate(0, "smf1")}},
+			{name: "1ue-2sess-split", depth: d(4, 7), maxSess: 2, bulks: []int{1300}},
 		}
 	}
 	return []cdrScenario{
